@@ -52,6 +52,7 @@ import GoZero.Base.Trace
 import GoZero.C19.Spec
 import GoZero.C19.Cmds
 import GoZero.C19.Outcomes
+import GoZero.C19.CmdTrace
 namespace GoZero.C19
 
 open GoZero
@@ -609,6 +610,12 @@ def checkReply (c : Ctx) (r : Report) (d : DSt) (kind : String) (h : Handed) (ou
     return (r', d')
   | _ => return bad
 
+def callOfOp (st : St) : Op → Call
+  | .acquire i => .acq i (st.secs i)
+  | .acquireS i s => .acq i s
+  | .release i => .rel i
+  | _ => .rel 0
+
 /-- a `ctx` line: the call entered through the Ctx variant with a caller's context -/
 def checkCtx (c : Ctx) (r : Report) (d : DSt) (kind : String) (p : Nat) (outer : Op) (obs : List String) :
     Report × DSt := Id.run do
@@ -623,14 +630,13 @@ def checkCtx (c : Ctx) (r : Report) (d : DSt) (kind : String) (p : Nat) (outer :
     -- the round trip before which the context is dead: 0/1 = nothing is ever sent; `far` never fires
     let pEff := if kind = "expired" then 0 else if kind = "far" then 1000 else p
     let m := runCancel real c.cfg d.st outer cached pEff
+    -- the commands the innermost hook sees: the model's command trace (CmdTrace.lean) in the harness' environment
+    let mc := modelCmds c.cfg (callOfOp d.st outer) d.down cached (if kind = "far" then none else some pEff) .nilNoErr
     let head :=
-      if d.down then (if pEff = 0 then "err cmds=-" else "err cmds=evalsha!")
+      if d.down then s!"err cmds={mc}"
       else match m.result with
-        | some b => s!"{resTok outer b} cmds={cmdsText cached}"
-        | none =>
-          -- a context that is dead when the call starts never reaches the connection (go-zero's breaker hook
-          -- returns the context's error first): no command is seen; cancelled before command 1: the EVALSHA fails
-          if pEff = 0 then "err cmds=-" else if m.sent = 0 then "err cmds=evalsha!" else "err cmds=evalsha!,eval!"
+        | some b => s!"{resTok outer b} cmds={mc}"
+        | none => s!"err cmds={mc}"
     r := r.addCover s!"ctx-{kind}-{callName outer}"
     if kind = "cancel" then r := r.addCover s!"ctx-cancel-before-command-{p}"
     if !d.down then
